@@ -217,6 +217,9 @@ def consistency(o):
             gn = [g[1] for g in t["groups"]]
             if len(set(gids)) != len(gids) or len(set(gn)) != len(gn):
                 bad.append("topic %s/%s: duplicate group id or name" % (s["id"], t["id"]))
+            for gid, listed, detail in t.get("group_parts", []):
+                if listed != t["parts_count"] or detail != t["parts_count"]:
+                    bad.append("topic %s/%s: consumer group %s is listed over %s partitions (details: %s), the topic has %s" % (s["id"], t["id"], gid, listed, detail, t["parts_count"]))
     uids = [u["id"] for u in o["users"]]
     un = [u["name"] for u in o["users"]]
     if len(set(uids)) != len(uids) or len(set(un)) != len(un):
